@@ -1,16 +1,20 @@
 #!/bin/bash
 # seed_matrix.sh : run every seeded change against the check of its property, in a scratch worktree of /repo
-# (so that /repo itself is never touched), and write seeded/MATRIX.md.  Usage: tools/seed_matrix.sh [seed names...]
+# (so that /repo itself is never touched) and from a SNAPSHOT of /verif's working tree (so that work on /verif can go
+# on meanwhile), and append to seeded/MATRIX.md.  Usage: tools/seed_matrix.sh [seed names...]
 cd /verif || exit 2
 W=$(mktemp -d /tmp/matrix_XXXX)
 git -C /repo worktree add --detach "$W/repo" HEAD >/dev/null 2>&1 || exit 2
 trap 'git -C /repo worktree remove --force "$W/repo"; rm -rf "$W"' EXIT
+rsync -a --exclude .git --exclude replays --exclude evidence /verif/ "$W/verif/"
 seeds="$*"; [ -z "$seeds" ] && seeds=$(ls seeded | grep -v MATRIX)
-out=seeded/MATRIX.md
+out=/verif/seeded/MATRIX.md
 [ -z "$*" ] && echo "| seed | property | check run | exit | first VIOLATION clause |" > $out && echo "|---|---|---|---|---|" >> $out
+cd "$W/verif" || exit 2
 for s in $seeds; do
   prop=$(python3 -c "import json;print(json.load(open('seeded/$s/meta.json'))['property'])")
-  git -C "$W/repo" checkout -q -- . && git -C "$W/repo" apply /verif/seeded/$s/patch.diff || { echo "| $s | $prop | patch does not apply | - | - |" | tee -a $out; continue; }
+  python3 -c "import json,sys;sys.exit(0 if json.load(open('seeded/$s/meta.json')).get('superseded') else 1)" && { echo "| $s | $prop | superseded by a fix: commit (see meta.json) | - | - |" | tee -a $out; continue; }
+  git -C "$W/repo" checkout -q -- . && git -C "$W/repo" apply "$W/verif/seeded/$s/patch.diff" || { echo "| $s | $prop | patch does not apply | - | - |" | tee -a $out; continue; }
   VERIF_REPO="$W/repo" VERIF_OUT="$W/out" ./check $prop > "$W/$s.out" 2>&1; rc=$?
   first=$(grep -m1 '^VIOLATION' "$W/$s.out" | sed 's/.*replay=//')
   clause=""
